@@ -177,6 +177,13 @@ Definition ipk_maintainer (i : minfo) : str :=
 Definition strip_last_nl (s : str) : str :=
   match rev s with b :: r => if beq b x0a then rev r else s | [] => s end.
 
+(* the deb `triggers` control member: one line per configured name, directive by directive in deb-triggers(5) order *)
+Definition deb_triggers (i : minfo) : str :=
+  flat_map (fun '(d, k) => flat_map (fun n => d ++ B " " ++ n ++ [x0a]) (gl i k))
+    [(B "interest", "deb.triggers.interest"); (B "interest-await", "deb.triggers.interest_await");
+     (B "interest-noawait", "deb.triggers.interest_noawait"); (B "activate", "deb.triggers.activate");
+     (B "activate-await", "deb.triggers.activate_await"); (B "activate-noawait", "deb.triggers.activate_noawait")]%string.
+
 Definition deb_control (archtab : list (str * str)) (i : minfo) (installed_kib : Z) : str :=
   let arch := translate_arch archtab (gs i "deb.arch") (gs i "arch") in
   (
